@@ -486,7 +486,7 @@ Proof.
   set (Y := escaped_name bl' ++ escape_label bx).
   assert (EY : (escaped_name bl' ++ escape_label bx ++ [c_dot]) ++ dom ++ [c_dot] = Y ++ c_dot :: dom ++ [c_dot]).
   { unfold Y. rewrite <- !app_assoc. reflexivity. }
-  rewrite EY. unfold strip_domain.
+  rewrite EY. unfold strip_domain, cut_domain.
   assert (HY : Forall (fun x => x < 128) Y).
   { unfold Y. apply Forall_app. split.
     - apply escaped_name_ascii, Hbl'.
